@@ -6,7 +6,7 @@ from engine.facts import strip_tmpl
 LEVEL = "other"
 MIN_OBLIGATIONS = 8
 THOROUGH_CONFIGS = ("headeronly",)
-TECHNIQUE = "lockset (must-hold) dataflow on the CFG keyed by mutex field identity + call-graph entry closure + lock-order graph + atomic-publication rule; exactly-once path rule on the entry functions (no give-up branch), mode-flip ordering rule on resetOwnThread; handler-identity rule (installMessageHandler never installs a foreign handler, not even transiently); meta-type registration on every constructor path; no mutable static state and no deferred callbacks in code reachable from handler entry points; only install/restore may call qInstallMessageHandler; handler classes with a process-wide instance() write members only under a lock of their own (lockset at every write site reachable from their per-message entry points)"
+TECHNIQUE = "lockset (must-hold) dataflow on the CFG keyed by mutex field identity + call-graph entry closure + lock-order graph + atomic-publication rule; exactly-once path rule on the entry functions (no give-up branch), mode-flip ordering rule on resetOwnThread; handler-identity rule (installMessageHandler never installs a foreign handler, not even transiently); meta-type registration on every constructor path; no mutable static state and no deferred callbacks in code reachable from handler entry points; only install/restore may call qInstallMessageHandler; handler classes with a process-wide instance() write members only under a lock of their own (lockset at every write site reachable from their per-message entry points); the logger is installed only after its pipeline is built (dominance on Logger::configure); sequence numbers are drawn inside the pipeline (rule shared with C16); meta-type registered under the name the queued signal asks for; statics handed to a callee as pointer / reference to non-const count as written"
 LEVEL_TEXT = ("Decides, for all schedules, that every path from the Qt message handler into a pipeline runs under the logger's mutex held for the whole run, "
               "that a bare own-thread handler holds its own mutex around synchronous processing and posting, that nested acquisitions cannot deadlock, and that the "
               "active-logger pointer is published atomically and cleared on destruction. Exactly-once and per-thread order then follow from C01 (sequential code under one lock).")
